@@ -325,12 +325,12 @@ class World(object):
 
     def reres(self):
         out = []
-        for (s, form, uri) in self.handed:
+        for (s, form, uri, via) in self.handed:
             text = self.str_form(form)
             now = self.h[s].valid_qualified_name(text)
             par = self.parents.get(s, "")
             up = self.h[par].valid_qualified_name(text) if par else None
-            out.append({"s": s, "str": form, "uri": uri,
+            out.append({"s": s, "str": form, "uri": uri, "via": via,
                         "now": proj_qn(now), "up": proj_qn(up)})
         return out
 
@@ -623,7 +623,7 @@ class World(object):
         def run():
             r = c.valid_qualified_name(arg)
             if r is not None:
-                self.handed.append((h, printed_form(r), uri_segs(r.uri)))
+                self.handed.append((h, printed_form(r), uri_segs(r.uri), "qn" if op == "ResQN" else "str"))
             return proj_qn(r)
         return run
 
